@@ -12,16 +12,21 @@ Theorem grayscale_law c :
   /\ h_alpha g = fmin (fmax (h_alpha (to_hsla c)) f_zero) f_one.
 Proof. cbn. repeat split. Qed.
 
-(* ---------- lighten / darken move the lightness by exactly the amount - and do not clamp it ---------- *)
+(* ---------- lighten / darken: one binary64 addition, then `.max(0.).min(1.)` (fix e0d618c) ---------- *)
 Theorem lighten_law c a :
-  h_lum (to_hsla (lighten c a)) = fadd (h_lum (to_hsla c)) a
-  /\ h_lum (to_hsla (darken c a)) = fsub (h_lum (to_hsla c)) a.
+  h_lum (to_hsla (lighten c a)) = clamp01 (fadd (h_lum (to_hsla c)) a)
+  /\ h_lum (to_hsla (darken c a)) = clamp01 (fsub (h_lum (to_hsla c)) a).
 Proof. split; reflexivity. Qed.
+
+(* the new lightness is in [0, 1] for EVERY colour and amount, NaN included *)
+Theorem lighten_range c a :
+  in01 f_zero f_one (h_lum (to_hsla (lighten c a))) /\ in01 f_zero f_one (h_lum (to_hsla (darken c a))).
+Proof. split; apply fmax_comm_range. Qed.
 
 Definition white : color := CRgba (rgba_from_bytes 255 255 255).
 Definition tenth : f64 := fdiv (fc 10) f100.
-Lemma refuted_lighten_clamp : fgt (h_lum (to_hsla (lighten white tenth))) f_one = true
-  /\ flt (h_lum (to_hsla (darken (CRgba (rgba_from_bytes 0 0 0)) tenth))) f_zero = true.
+Lemma lighten_white : feq (h_lum (to_hsla (lighten white tenth))) f_one = true
+  /\ feq (h_lum (to_hsla (darken (CRgba (rgba_from_bytes 0 0 0)) tenth))) f_zero = true.
 Proof. vm_compute. auto. Qed.
 
 (* ---------- clamps ---------- *)
@@ -94,7 +99,7 @@ Definition laws_ok (c : color) : bool :=
   && is_true (color_eq (scale_none c) c) && is_true (color_eq (adjust_none c) c).
 Definition entry_laws (e : string * Z) : bool :=
   match from_name (fst e) with
-  | Some x => k6_rgba x || laws_ok (CRgba x)
+  | Some x => laws_ok (CRgba x)
   | None => false
   end.
 Lemma named_laws_sweep : forallb entry_laws color_table = true.
@@ -106,17 +111,17 @@ Definition undo_ok (c : color) (a : f64) : bool :=
   fgt (fadd l a) f_one || is_true (color_eq (darken (lighten c a) a) c).
 Definition entry_undo (e : string * Z) : bool :=
   match from_name (fst e) with
-  | Some x => k6_rgba x || undo_ok (CRgba x) tenth
+  | Some x => undo_ok (CRgba x) tenth
   | None => false
   end.
 Lemma named_undo_sweep : forallb entry_undo color_table = true.
 Proof. vm_compute. reflexivity. Qed.
 
-(* F33 again: scale-color(yellow) with no arguments is black *)
-Lemma refuted_scale_identity :
-  color_eq (scale_none (CRgba (rgba_from_bytes 255 255 0))) (CRgba (rgba_from_bytes 255 255 0)) = Some false.
+(* F33 is fixed: scale-color(yellow) with no arguments is yellow *)
+Lemma scale_identity_yellow :
+  color_eq (scale_none (CRgba (rgba_from_bytes 255 255 0))) (CRgba (rgba_from_bytes 255 255 0)) = Some true.
 Proof. vm_compute. reflexivity. Qed.
-(* F4 again: an hsl() colour never equals its lighten/darken round trip (hsla_format flag) *)
+(* F39: an hsl() colour never equals its lighten/darken round trip (hsla_format flag) *)
 Lemma refuted_hsl_undo :
   let c := sass_hsl (fc 120) (fc 50) (fc 50) f_one in
   color_eq (darken (lighten c tenth) tenth) c = Some false.
